@@ -141,7 +141,11 @@ CreateBridge_E(s, e) ==
                !.batch = [s.batch EXCEPT ![k] = << [sub |-> c.bsub, chain |-> c.bchain, out |-> NoOutput] >>],
                !.bal   = Move(s.bal, e.signer, Pool, s.feeDenom, s.fee),
                !.chan  = RegisterAll(s.chan, MetaChans(c.meta), c.challenger, FALSE).chan]
-CreateBridge_R(s, e) == [bridge |-> s.nextB]
+CreateBridge_R(s, e) ==
+  [bridge |-> s.nextB,
+   \* the emitted event (what off-chain bots index); the same for the evt fields below
+   evt |-> [creator |-> e.signer, proposer |-> e.cfg.proposer, challenger |-> e.cfg.challenger, bchain |-> e.cfg.bchain, bsub |-> e.cfg.bsub,
+            bridge |-> s.nextB, oracle |-> e.cfg.oracle]]
 
 ----------------------------------------------------------------------------
 (* ProposeOutput                                                            *)
@@ -158,7 +162,7 @@ ProposeOutput_E(s, e) ==
   LET k == K(e.b) n == s.nextOut[k] IN
   [s EXCEPT !.outs    = [s.outs EXCEPT ![k] = Put(s.outs[k], K(n), MkOutput(e.root, e.l2bn, s.now, s.h))],
             !.nextOut = [s.nextOut EXCEPT ![k] = n + 1]]
-ProposeOutput_R(s, e) == [idx |-> e.idx]
+ProposeOutput_R(s, e) == [idx |-> e.idx, evt |-> [proposer |-> e.signer, bridge |-> e.b, idx |-> e.idx, l2bn |-> e.l2bn, root |-> e.root]]
 
 ----------------------------------------------------------------------------
 (* DeleteOutput                                                             *)
@@ -175,7 +179,7 @@ DeleteOutput_E(s, e) ==
   LET k == K(e.b) IN
   [s EXCEPT !.outs    = [s.outs EXCEPT ![k] = [x \in {K(j) : j \in {i \in AllOutIdx(s, e.b) : i < e.idx \/ i >= s.nextOut[k]}} |-> s.outs[k][x]]],
             !.nextOut = [s.nextOut EXCEPT ![k] = e.idx]]
-DeleteOutput_R(s, e) == [idx |-> e.idx]
+DeleteOutput_R(s, e) == [idx |-> e.idx, evt |-> [challenger |-> e.signer, bridge |-> e.b, idx |-> e.idx]]
 
 ----------------------------------------------------------------------------
 (* InitiateTokenDeposit                                                     *)
@@ -221,6 +225,7 @@ FinalizeTokenWithdrawal_R(s, e) ==
 ----------------------------------------------------------------------------
 (* role / config updates                                                    *)
 UpdRespOf(s, b) == [idx |-> LastFinalIdx(s, b), l2bn |-> LastFinalOut(s, b).l2bn]
+UpdEvt(s, b, extra) == extra @@ [bridge |-> b, fidx |-> LastFinalIdx(s, b), fl2bn |-> LastFinalOut(s, b).l2bn]
 
 UpdateProposer_G(s, e) ==
   LET k == K(e.b) ex == Has(s.cfg, k) IN
@@ -228,7 +233,7 @@ UpdateProposer_G(s, e) ==
     bridgeExists |-> ex,
     auth         |-> ex /\ e.signer \in {Gov, s.cfg[k].proposer} ]
 UpdateProposer_E(s, e) == [s EXCEPT !.cfg = [s.cfg EXCEPT ![K(e.b)].proposer = e.new]]
-UpdateProposer_R(s, e) == UpdRespOf(s, e.b)
+UpdateProposer_R(s, e) == UpdRespOf(s, e.b) @@ [evt |-> UpdEvt(s, e.b, [proposer |-> e.new])]
 
 UpdateChallenger_G(s, e) ==
   LET k == K(e.b) ex == Has(s.cfg, k) IN
@@ -239,7 +244,7 @@ UpdateChallenger_E(s, e) ==
   LET k == K(e.b) IN
   [s EXCEPT !.cfg  = [s.cfg EXCEPT ![k].challenger = e.new],
             !.chan = SetAdminAll(s.chan, MetaChans(s.cfg[k].meta), e.new)]
-UpdateChallenger_R(s, e) == UpdRespOf(s, e.b)
+UpdateChallenger_R(s, e) == UpdRespOf(s, e.b) @@ [evt |-> UpdEvt(s, e.b, [challenger |-> e.new])]
 
 UpdateBatchInfo_G(s, e) ==
   LET k == K(e.b) ex == Has(s.cfg, k) IN
@@ -250,7 +255,7 @@ UpdateBatchInfo_E(s, e) ==
   LET k == K(e.b) IN
   [s EXCEPT !.cfg   = [s.cfg EXCEPT ![k].bsub = e.bsub, ![k].bchain = e.bchain],
             !.batch = [s.batch EXCEPT ![k] = Append(@, [sub |-> e.bsub, chain |-> e.bchain, out |-> LastFinalOut(s, e.b)])]]
-UpdateBatchInfo_R(s, e) == UpdRespOf(s, e.b)
+UpdateBatchInfo_R(s, e) == UpdRespOf(s, e.b) @@ [evt |-> UpdEvt(s, e.b, [bchain |-> e.bchain, bsub |-> e.bsub])]
 
 UpdateOracleConfig_G(s, e) ==
   LET k == K(e.b) ex == Has(s.cfg, k) IN
@@ -258,7 +263,7 @@ UpdateOracleConfig_G(s, e) ==
     bridgeExists |-> ex,
     auth         |-> ex /\ e.signer \in {Gov, s.cfg[k].proposer} ]
 UpdateOracleConfig_E(s, e) == [s EXCEPT !.cfg = [s.cfg EXCEPT ![K(e.b)].oracle = e.flag]]
-UpdateOracleConfig_R(s, e) == [flag |-> e.flag]
+UpdateOracleConfig_R(s, e) == [flag |-> e.flag, evt |-> [bridge |-> e.b, oracle |-> e.flag]]
 
 UpdateMetadata_G(s, e) ==
   LET k == K(e.b) ex == Has(s.cfg, k) IN
@@ -270,7 +275,7 @@ UpdateMetadata_E(s, e) ==
   LET k == K(e.b) IN
   [s EXCEPT !.cfg  = [s.cfg EXCEPT ![k].meta = e.meta],
             !.chan = RegisterAll(s.chan, MetaChans(e.meta), s.cfg[k].challenger, TRUE).chan]
-UpdateMetadata_R(s, e) == UpdRespOf(s, e.b)
+UpdateMetadata_R(s, e) == UpdRespOf(s, e.b) @@ [evt |-> UpdEvt(s, e.b, [x \in {} |-> 0])]
 
 UpdateParams_G(s, e) ==
   [ valid |-> ValidAddr(e.signer) /\ e.fee >= 0,
